@@ -121,8 +121,10 @@ def runOut (c : Codec) (rels : List String) : Engine → List Op → List String
   | e, o :: os => let r := stepOut c rels e o; r.2 :: runOut c rels r.1 os
 
 /-- the whole output line for a history. -/
-def histOutput (cfg : Cfg) (ops : List Op) : String :=
-  if ops.isEmpty then "empty" else joinWith " | " (runOut realCodec (relNames ops) { cfg := cfg } ops)
+def histOutputWith (c : Codec) (cfg : Cfg) (ops : List Op) : String :=
+  if ops.isEmpty then "empty" else joinWith " | " (runOut c (relNames ops) { cfg := cfg } ops)
+
+def histOutput (cfg : Cfg) (ops : List Op) : String := histOutputWith realCodec cfg ops
 
 /-! ### reading the implementation's output back (for the Spec oracles) -/
 
